@@ -244,9 +244,9 @@ def tables(ctx, R="R-C11-dispatch-tables"):
     lit = rets - {"<soundfile type>"}
     ctx.check(lit <= handled, R, g, g.node, "every type the suffix inference can return is handled by the dispatch", "inferred but unhandled: %s" % sorted(lit - handled))
     ctx.check(lit == {"table", "wav", "hdf5", "npy", "npz", "pt", "sph", "kaldi"}, R, g, g.node,
-              "suffix inference covers the documented suffixes", "suffix inference returns %s" % sorted(lit))
+              "suffix inference covers the documented suffixes", "suffix inference returns %s" % sorted(lit), structural=(not semantic_ok and len(pairs) < 3))
     want_pairs = {".wav": "wav", ".hdf5": "hdf5", ".npy": "npy", ".npz": "npz", ".pt": "pt", ".sph": "sph", "|": "kaldi"}
-    ctx.check(pairs == want_pairs, R, g, g.node, "each suffix maps to its own container type", "suffix table is %s" % pairs)
+    ctx.check(pairs == want_pairs, R, g, g.node, "each suffix maps to its own container type", "suffix table is %s" % pairs, structural=(not semantic_ok and len(pairs) < 3))
     rs = astq.raises_of(g)
     ok = len(rs) == 1 and astq.raise_type(prog, g, rs[0]) == "IOError"
     cfg = CFG(g.node)
@@ -461,6 +461,33 @@ def readers(ctx, R="R-C11-readers"):
     f = prog.func("util._torch_read_signal")
     txt = astq.text(f.node)
     ctx.check("torch.load(rfilename, map_location='cpu', **kwargs).numpy()" in txt, R, f, f.node, "pt: the tensor is loaded on the CPU and viewed as an array", structural=True)
+    # value form: what reaches .numpy() is the loaded tensor itself - detach / cpu keep its values and dtype, a conversion does not
+    try:
+        evt = SymEval(prog, f).run()
+        vals = [v_ for _, v_, _n in evt.returns]
+    except Exception:
+        vals = []
+    CONV = {".float", ".double", ".half", ".to", ".type", ".bfloat16", ".int", ".long", ".short"}
+    KEEP = {".detach", ".cpu", ".contiguous", ".clone", ".resolve_conj", ".resolve_neg"}
+    for v_ in vals:
+        for x in S.walk(v_):
+            if isinstance(x, S.E) and x.op == "call" and x.args[0] == ".numpy" and len(x.args) == 2:
+                inner, convs = x.args[1], []
+
+                def scan(e):
+                    if not isinstance(e, S.E):
+                        return
+                    if e.op == "cond":
+                        scan(e.args[1]); scan(e.args[2])
+                    elif e.op == "call" and e.args[0] in CONV:
+                        convs.append(e.args[0])
+                        scan(e.args[1])
+                    elif e.op == "call" and e.args[0] in KEEP and len(e.args) >= 2:
+                        scan(e.args[1])
+                scan(inner)
+                ctx.check(not convs, R, f, f.node, "pt: the array is a view of the tensor as stored (no dtype conversion before .numpy())",
+                          "the loaded tensor is converted (%s) before it becomes an array on some path: a tensor stored in that precision comes back "
+                          "in another dtype although no dtype was requested" % ", ".join(sorted(set(convs))))
     ctx.floor(R, n, 6)
     # wav: scipy first, wave module as ImportError fallback
     g = prog.func("util.read_signal")
